@@ -84,7 +84,10 @@ def all_atoms(p, n=None):
     return sorted(used) if used else ["a1"]
 
 def render(p, natoms=4):
-    """chalk text.  Clauses without negation become impls (with where-clauses), clauses with negation
+    return " ".join(render_items(p, natoms))
+
+def render_items(p, natoms=4):
+    """chalk text, one string per item.  Clauses without negation become impls (with where-clauses), clauses with negation
     custom clauses; declaration order is kept within each group."""
     co = set(p["co"])
     out = []
@@ -101,7 +104,7 @@ def render(p, natoms=4):
         else:
             conds = ", ".join(st(a) if pos else "not { %s }" % st(a) for pos, a in b)
             out.append("forall<> { %s if %s }" % (st(h), conds))
-    return " ".join(out)
+    return out
 
 def goal_text(g):
     i = g[1:]
